@@ -52,6 +52,18 @@ def generate(seed, tier):
         cases.append({"id": f"gen-{cs}", "text": program_str(prog), "ast": prog.to_json(), "params": K.frac_enc(params),
                       "inits": K.frac_enc(inits), "N": 6 if tier == "quick" else 9, "settings": cfg,
                       "features": feats + [f"fp_iter:{cfg['type_fp_iterations']}"]})
+    # a fixed number of programs whose finite choices mix numeric and symbolic probabilities (rare under the profile lottery)
+    want, have, j = (10 if tier == "quick" else 150), 0, 0
+    while have < want and j < 4000:
+        cs = K.harness_seed(seed, ID + "-symprob", j)
+        j += 1
+        prog, feats, meta = G.generate(cs, "symbolic")
+        if "fin-choice-symbolic-probability" not in feats:
+            continue
+        have += 1
+        params, inits = G.instantiate_params(random.Random(cs), meta, prog)
+        cases.insert(3 * have, {"id": f"gen-{cs}", "text": program_str(prog), "ast": prog.to_json(), "params": K.frac_enc(params),
+                                "inits": K.frac_enc(inits), "N": 6, "settings": {"type_fp_iterations": 100}, "features": feats + ["fp_iter:100"]})
     for c in CORPUS.cases(seed, tier, 30 if tier == "quick" else 300, ID, N=5):
         c["settings"] = {}
         cases.append(c)
